@@ -273,6 +273,9 @@ func limitFor(ep string, n int, scale float64) time.Duration {
 		perKB = 200 * time.Millisecond
 	}
 	d := base + time.Duration(n/1024+1)*perKB
+	if max := 30 * base; d > max {
+		d = max // 60 s (LoadProgramFile: 240 s) whatever the size: normal speeds are above 1 MiB/s
+	}
 	return time.Duration(float64(d) * scale)
 }
 
